@@ -284,6 +284,37 @@ def global_state(p: Program) -> List[Tuple[str, str, str, str]]:
                             items.append(("class attribute assigned at run time", f"{t.value.id}.{t.attr}",
                                           f"{m.rel()}:{n.lineno}", f"in {f.qualname}"))
     muts = name_mutations(p, set(mod_level) | set(cls_level))
+    # a class-level object handed, as `Cls.attr` / `self.attr`, to a function of the program that mutates that parameter in place
+    # (sorts it "for display", appends to it ...) is mutated just the same
+    for m, f in functions_with_module(p):
+        if f.name in CLASS_CREATION_HOOKS:
+            continue
+        for call in ast.walk(f.node):
+            if not isinstance(call, ast.Call):
+                continue
+            for pos, a in list(enumerate(call.args)) + [(k.arg, k.value) for k in call.keywords]:
+                if not (isinstance(a, ast.Attribute) and a.attr in cls_level):
+                    continue
+                callee_name = call.func.attr if isinstance(call.func, ast.Attribute) else call.func.id if isinstance(call.func, ast.Name) else None
+                cands = [g for _, g in functions_with_module(p) if g.name == callee_name]
+                for g in cands:
+                    params = [x.arg for x in g.node.args.posonlyargs + g.node.args.args + g.node.args.kwonlyargs]
+                    if params and params[0] in ("self", "cls") and isinstance(call.func, ast.Attribute):
+                        params_pos = params[1:]
+                    else:
+                        params_pos = params
+                    pname = pos if isinstance(pos, str) else (params_pos[pos] if isinstance(pos, int) and pos < len(params_pos) else None)
+                    if pname is None:
+                        continue
+                    for n in ast.walk(g.node):
+                        hit = isinstance(n, ast.Call) and isinstance(n.func, ast.Attribute) and n.func.attr in MUTATORS and \
+                            isinstance(n.func.value, ast.Name) and n.func.value.id == pname
+                        hit = hit or (isinstance(n, (ast.Assign, ast.AugAssign)) and any(
+                            isinstance(t, ast.Subscript) and isinstance(t.value, ast.Name) and t.value.id == pname
+                            for t in (n.targets if isinstance(n, ast.Assign) else [n.target])))
+                        if hit:
+                            muts[a.attr].append(f"{f.qualname}: passed to {g.qualname}, which mutates its parameter {pname}")
+                            break
     for name, (mod, v, line) in mod_level.items():
         if not muts[name]:
             esc = read_only_uses(p, name, mod)
